@@ -259,7 +259,7 @@ func checkC14(c *Check) {
 	m := getHModel(P)
 	R := m.R
 	c.Assumes("session id, state, nonce and the S256 challenge are not secrets for this property; encodings applied inside libraries and log output (not sent to the browser) are not examined")
-	c.Rule("C14.R1", "deny sinks are clean: no value stored into DeniedHttpResponse.Body, into a HeaderValue that is built in the handler outside the OK writer (denials and redirects), or into status.Status.Message / the server's deny message, data-depends (interprocedurally, through parameters and own callees, stopping at the S256 challenge hash) on the client secret, a PKCE verifier, an ID/access/refresh token, an IdP response body or an error value.", 8)
+	c.Rule("C14.R1", "deny sinks are clean: no value stored into DeniedHttpResponse.Body, into a HeaderValue that is built in the handler outside the OK writer (denials and redirects), or into status.Status.Message / the server's deny message, data-depends (interprocedurally, through parameters and own callees, stopping at the S256 challenge hash) on the client secret, a PKCE verifier, an ID/access/refresh token, an IdP response body or an error value. Every kind of browser-bound sink (body, header value) must be found at least once.", 5)
 	c.Rule("C14.R2", "the OK sink is exact: the headers the OK writer adds carry no secret other than the ID token and the access token of the token object it was given (never the refresh token, client secret or verifier).", 2)
 	c.Rule("C14.R3", "errors are not echoed: no error value or error text flows into any response sink.", 1)
 	if !requireModel(c, "C14.R1", m, "hw.") {
@@ -340,7 +340,15 @@ func checkC14(c *Check) {
 			s.what+" in "+fnKey(s.fn)+" is built from constants, configuration, the session id / state / nonce / challenge and request data only",
 			fmt.Sprintf("%s in %s can carry %v back to the user agent (via %s)", s.what, fnKey(s.fn), names, firstDesc(t)))
 	}
-	c.Obl(nDeny >= 8, "C14.R1", "sink-count", "-", fmt.Sprintf("%d browser-bound sinks analysed", nDeny), fmt.Sprintf("only %d browser-bound sinks found (floor 8)", nDeny))
+	kinds := map[string]int{}
+	for _, s := range sinks {
+		if !s.ok {
+			kinds[s.what]++
+		}
+	}
+	c.Obl(nDeny >= 4 && kinds["DeniedHttpResponse.Body"] > 0 && kinds["v3.HeaderValue.Value"] >= 2, "C14.R1", "sink-count", "-",
+		fmt.Sprintf("%d browser-bound sinks analysed (%v)", nDeny, kinds),
+		fmt.Sprintf("only %d browser-bound sinks found (%v): a body sink and at least the Location and Set-Cookie value sinks are expected", nDeny, kinds))
 	c.Obl(errFlows == 0, "C14.R3", "no-error-echo", "-", "no error value reaches a response sink", fmt.Sprintf("%d response sinks can carry error text", errFlows))
 	// server deny(code, message) call sites
 	for _, fn := range P.Funcs {
